@@ -11,9 +11,6 @@ open FxVerif.Model.C19
 
 def Keys {κ : Type} (s : Store κ) : Prop := (s.map (·.1)).Nodup
 
-/-- sum of the values whose key satisfies `p` -/
-def tsum {κ : Type} (p : κ → Bool) (s : Store κ) : Nat := ((s.filter (fun x => p x.1)).map (·.2)).sum
-
 theorem tsum_cons {κ : Type} (p : κ → Bool) (k : κ) (v : Nat) (r : Store κ) :
     tsum p ((k, v) :: r) = (if p k then v else 0) + tsum p r := by
   unfold tsum
@@ -100,10 +97,6 @@ theorem tsum_ssub {κ : Type} [DecidableEq κ] (p : κ → Bool) (s : Store κ) 
 
 /-! ## the backing invariant -/
 
-/-- the coin that backs an ERC-20 token -/
-def denomOfE : ETok → Denom
-  | .nat => .nat | .base => .base | .v l => .vV l
-
 theorem pairOf_denomOfE (t : ETok) : pairOf (denomOfE t) = some t := by cases t <;> rfl
 
 theorem pairOf_some {d : Denom} {t : ETok} (h : pairOf d = some t) : d = denomOfE t := by
@@ -113,14 +106,11 @@ theorem denomOfE_inj {t t' : ETok} (h : denomOfE t = denomOfE t') : t = t' := by
   cases t <;> cases t' <;> simp [denomOfE] at h ⊢
   exact h
 
-/-- supply of ERC-20 token `t` -/
-def supply (t : ETok) (b : Bal) : Nat := tsum (fun k => decide (k.2 = t)) b.erc
-
 /-- stores have unique keys and every ERC-20 token is backed one to one by its coin in the erc20 module account -/
 structure Backed (b : Bal) : Prop where
   kb : Keys b.bank
   ke : Keys b.erc
-  eq : ∀ t, supply t b = sget b.bank (erc20Mod, denomOfE t)
+  eq : ∀ t, supply t b.erc = sget b.bank (erc20Mod, denomOfE t)
 
 theorem backed_init : Backed init.bal := ⟨by simp [init, Keys], by simp [init, Keys], by intro t; simp [init, supply, tsum, sget]⟩
 
